@@ -92,3 +92,22 @@ Proof.
     (conj (gen_tmbase_calls_eq c W M K N) (gen_tmbase_masked_calls_eq c W M K N)))))).
 Qed.
 Print Assumptions C17_source_blocking.
+
+(** the tmatmul micro-kernels as translated (Gen/GeneratedAccess.v): operand / result index expressions and the
+    block extents from which each kernel computes its k-range at the block origin *)
+From FastorV Require Import Gen.GeneratedAccess Proofs.GenAccessEq.
+Theorem C17_source_kernels :
+  forall W M K N Ru i j ii k n nr nc,
+   (gen_tmkernel1_accesses W M K N Ru i j ii k n = model_kernel_accesses 1 W K N Ru i j ii k n /\
+    gen_tmkernel2_accesses W M K N Ru i j ii k n = model_kernel_accesses 2 W K N Ru i j ii k n /\
+    gen_tmkernel3_accesses W M K N Ru i j ii k n = model_kernel_accesses 3 W K N Ru i j ii k n /\
+    gen_tmkernel4_accesses W M K N Ru i j ii k n = model_kernel_accesses 4 W K N Ru i j ii k n /\
+    gen_tmkernel5_accesses W M K N Ru i j ii k n = model_kernel_accesses 5 W K N Ru i j ii k n /\
+    gen_tmkernel_scalar_accesses W M K N Ru i j ii k n = model_kernel_accesses 1 W K N Ru i j ii k n /\
+    gen_tmkernel_mask0_accesses W M K N Ru i j ii k n = model_kernel_accesses 1 W K N Ru i j ii k n /\
+    gen_tmkernel_mask1_accesses W M K N Ru i j ii k n = model_kernel_accesses 1 W K N Ru i j ii k n) /\
+   (gen_tmkernel1_krange W Ru nr nc = [Ru * nr; nc * W; Ru * nr; nc * W] /\ gen_tmkernel2_krange W Ru nr nc = [Ru * nr; nc * W; Ru * nr; nc * W] /\
+    gen_tmkernel3_krange W Ru nr nc = [Ru * nr; nc * W; Ru * nr; nc * W] /\ gen_tmkernel4_krange W Ru nr nc = [Ru * nr; nc * W; Ru * nr; nc * W] /\
+    gen_tmkernel5_krange W Ru nr nc = [Ru * nr; nc * W; Ru * nr; nc * W] /\ gen_tmkernel_scalar_krange W Ru nr nc = [Ru * nr; nc; Ru * nr; nc] /\
+    gen_tmkernel_mask0_krange W Ru nr nc = [Ru * nr; nc * W; Ru * nr; nc * W] /\ gen_tmkernel_mask1_krange W Ru nr nc = [Ru * nr; nc * W; Ru * nr; nc * W]).
+Proof. intros. exact (conj (gen_tmkernel_accesses_eq W M K N Ru i j ii k n) (gen_tmkernel_krange_eq W Ru nr nc)). Qed.
